@@ -1245,7 +1245,7 @@ impl Server {
         // Log to AOF for write commands
         if let Some(aof) = &self.aof_engine {
             if self.is_write_command(&command_name) {
-                if let Err(e) = aof.append_command(parts) {
+                if let Err(e) = aof.append_command(parts, db) {
                     eprintln!("Failed to append to AOF: {}", e);
                 }
             }
